@@ -12,6 +12,7 @@ package c16
 import (
 	"fmt"
 	"hash/fnv"
+	"os"
 	"strings"
 	"testing"
 	"time"
@@ -518,6 +519,12 @@ func (w *world) nbrs(p int) []int {
 }
 
 func body(s *simrt.Sim, tier string) {
+	// One run in 32 watches the connection tables of real schedulers in a
+	// simulated cluster (invivo_test.go); workload variants are out of band.
+	if s.Tape.Variant%32 == 5 || os.Getenv("KSIM_C16_MODE") == "invivo" {
+		invivo(s, tier)
+		return
+	}
 	tp := s.Tape
 	w := &world{s: s, pidx: map[core.PeerID]int{}, hidx: map[core.InfoHash]int{}, byConn: map[*conn.Conn]*connRec{}}
 	w.M = 1 + tp.Draw(5)
@@ -650,7 +657,7 @@ func TestC16(t *testing.T) {
 		Property: "C16",
 		Body:     body,
 		Config: func(tier string) simrt.Config {
-			return simrt.Config{MaxSteps: 400000, Horizon: 12 * time.Hour, PanicIsFailure: true}
+			return simrt.Config{MaxSteps: 20_000_000, Horizon: 12 * time.Hour, PanicIsFailure: true}
 		},
 		Real: []string{"lib/torrent/scheduler/connstate.State", "lib/torrent/scheduler/conn.Handshaker and conn.Conn (objects only: handshake both directions, Close/IsClosed)"},
 		Stub: []string{"transport: in-memory byte stream installed under shim/net (no faults)", "the scheduler event loop: one harness task issues the operations, including a replay of the announce-result peer selection of events.go", "networkevent.TestProducer, tally.NoopScope"},
